@@ -544,7 +544,7 @@ class Normalizer:
                 ifs = tuple(self.n(c) for c in g.ifs)
                 gens.append((tg, it, ifs))
             body = tuple(self.n(e) for e in elts)
-            return ("comp", kind, body, tuple(gens))
+            return _fuse_comp(("comp", kind, body, tuple(gens)))
         finally:
             for _ in range(pushed):
                 self.bound.pop()
@@ -563,6 +563,52 @@ class Normalizer:
 
 
 # ---------------------------------------------------------------------------------------------
+def _replace_term(t, old, new):
+    if t == old:
+        return new
+    if isinstance(t, tuple):
+        return tuple(_replace_term(x, old, new) if isinstance(x, tuple) else x for x in t)
+    return t
+
+
+def _fuse_comp(t):
+    """[f(a) for a in [g(k) for k in K]]  ==  [f(g(k)) for k in K]   and
+    [f(a, k) for a, k in zip([g(k) for k in K], K)]  ==  [f(g(k), k) for k in K]   (parallel lists built from the same source).
+    Only single-generator, filter-free inner comprehensions are fused; anything else is returned unchanged."""
+    _, kind, body, gens = t
+    out = []
+    changed = False
+    for tg, it, ifs in gens:
+        inner = None
+        # case A: iterate directly over a list comprehension
+        if it[0] == "comp" and it[1] == "list" and len(it[3]) == 1 and not it[3][0][2] and len(it[2]) == 1 and tg[0] == "b":
+            tg2, it2, _ = it[3][0]
+            body = tuple(_replace_term(b_, tg, it[2][0]) for b_ in body)
+            ifs = tuple(_replace_term(c_, tg, it[2][0]) for c_ in ifs)
+            out.append((tg2, it2, ifs))
+            changed = True
+            continue
+        # case B: zip of a comprehension over Y with Y itself (either order)
+        if it[0] == "call" and it[1] == "builtins.zip" and len(it[2]) == 2 and not it[3] and tg[0] == "tuple" and len(tg) == 3:
+            for ci, oi in ((0, 1), (1, 0)):
+                c_, o_ = it[2][ci], it[2][oi]
+                if c_[0] == "comp" and c_[1] == "list" and len(c_[3]) == 1 and not c_[3][0][2] and len(c_[2]) == 1 and c_[3][0][1] == o_ and c_[3][0][0][0] == "b":
+                    inner = (ci, oi, c_)
+                    break
+            if inner is not None:
+                ci, oi, c_ = inner
+                t_c, t_o = tg[1 + ci], tg[1 + oi]
+                if t_c[0] == "b" and t_o[0] == "b":
+                    val = _replace_term(c_[2][0], c_[3][0][0], t_o)
+                    body = tuple(_replace_term(b_, t_c, val) for b_ in body)
+                    ifs = tuple(_replace_term(x_, t_c, val) for x_ in ifs)
+                    out.append((t_o, it[2][oi], ifs))
+                    changed = True
+                    continue
+        out.append((tg, it, ifs))
+    return ("comp", kind, body, tuple(out)) if changed else t
+
+
 def subterms(t):
     """Pre-order iteration over all sub-terms of a term."""
     yield t
